@@ -170,6 +170,28 @@ func c10invalid(f QFrame, which string) QFrame {
 		return f.WithRowNums("")
 	case "groupby_unknown":
 		return f.GroupBy(groupby.Columns("zz")).Aggregate(Aggregation{Fn: "sum", Column: "a"})
+	case "empty_frame_groupby_unknown": // validation comes before any "nothing to do" shortcut
+		return f.Slice(1, 1).GroupBy(groupby.Columns("zz")).Aggregate(Aggregation{Fn: "sum", Column: "a"})
+	case "empty_frame_distinct_unknown":
+		return f.Slice(0, 0).Distinct(groupby.Columns("zz"))
+	case "empty_frame_groupby_unknown_agg":
+		return f.Slice(0, 0).GroupBy(groupby.Columns("c")).Aggregate(Aggregation{Fn: "sum", Column: "zz"})
+	case "filter_bad_regex_twice": // the same malformed pattern is rejected every time it is used
+		g := f.Filter(Filter{Column: "s", Comparator: "like", Arg: "%a[c"})
+		if g.Err == nil {
+			return g
+		}
+		return f.Filter(Filter{Column: "s", Comparator: "like", Arg: "%a[c"})
+	case "filter_bad_regex_twice_ilike":
+		g := f.Filter(Filter{Column: "e", Comparator: "ilike", Arg: "a(b"})
+		if g.Err == nil {
+			return g
+		}
+		h := f.Filter(Or(Filter{Column: "a", Comparator: "=", Arg: 1}, Filter{Column: "e", Comparator: "ilike", Arg: "a(b"}))
+		if h.Err == nil {
+			return h
+		}
+		return f.Slice(0, 0).Filter(Filter{Column: "e", Comparator: "ilike", Arg: "a(b"})
 	case "aggregate_unknown_col":
 		return f.GroupBy(groupby.Columns("c")).Aggregate(Aggregation{Fn: "sum", Column: "zz"})
 	case "aggregate_unknown_fn":
